@@ -256,7 +256,9 @@ def _tree_diff(got, exp):
 
 # ----------------------------------------------------------------------------------------------
 def gen_fault(rng, approx_n):
-    kind = rng.choice(["kill", "kill", "kill", "torn", "eio", "enospc"])
+    kind = rng.choice(["kill", "kill", "kill", "torn", "eio", "enospc", "corrupt"])
+    if kind == "corrupt":
+        return dict(kind="corrupt", which=rng.randrange(8), keep=rng.choice([0.3, 0.6, 0.9]))
     r = rng.random()
     if r < 0.45:
         f = dict(kind=kind, at=rng.randint(0, max(1, approx_n)))
@@ -402,6 +404,7 @@ class Spec(core.PropSpec):
 
         def do(st, fault, history, tag):
             counter[0] += 1
+            plan_fault = fault
             before_exists = os.path.exists(dst)
             st.leftovers = before_exists and not st.completed and not st.user_provided
             bt = snapshot(dst) if before_exists else None
@@ -410,7 +413,22 @@ class Spec(core.PropSpec):
             st.before_complete = bt is not None and {k: v for k, v in bt.items() if not ("/" not in k and v is not None and k not in expected)} == expected
             # the retry need not use the settings of the interrupted attempt (other worker count, Path instead of str arguments)
             use = fns[(plan.get("vary_seed", 0) + counter[0]) % len(fns)] if plan.get("vary_calls") else fn
+            restore = None
+            if fault is not None and fault.get("kind") == "corrupt":
+                # the global file system delivers a truncated zip during this attempt only (environment fault, not done by the copy)
+                zips = sorted(os.path.join(dp, f) for dp, _, fs_ in os.walk(G) for f in fs_ if f.endswith(".zip"))
+                fault = None
+                if zips:
+                    zp = zips[plan_fault["which"] % len(zips)]
+                    data = open(zp, "rb").read()
+                    with open(zp, "wb") as fh:
+                        fh.write(data[:max(1, int(len(data) * plan_fault["keep"]))])
+                    restore = (zp, data)
+                    out.count("fault:source_zip_truncated_during_attempt")
             att = m.attempt(use, fault, list_seed=f"{ls}/{counter[0]}", sched_seed=f"{ss}/{counter[0]}", classify=role)
+            if restore is not None:
+                with open(restore[0], "wb") as fh:
+                    fh.write(restore[1])
             fired = att["fired"]
             history = history + [[tag, att["status"], (fired or {}).get("kind"), (fired or {}).get("at"), (fired or {}).get("prim"),
                                   (fired or {}).get("role")]]
